@@ -61,6 +61,12 @@ class ModuleRef:
         self.name = name
 
 
+class SuperProxy:
+    def __init__(self, obj, cls):
+        self.obj = obj
+        self.cls = cls
+
+
 class ClassRef:
     """Reference to a repo class used as a value (constructor, isinstance target)."""
 
@@ -747,6 +753,15 @@ class Executor:
             raise PyRaise('AttributeError', "'NoneType' object has no attribute '%s'" % name)
         if isinstance(o, ModuleRef):
             return self.module_attr(o.name, name)
+        if isinstance(o, SuperProxy):
+            mro = o.obj.cls.mro()
+            idx = [c.name for c in mro].index(o.cls.name)
+            for c in mro[idx + 1:]:
+                if name in c.methods:
+                    return BoundMethod(o.obj, c.methods[name])
+            if name == '__init__':
+                return Builtin('object.__init__', lambda ex, *a, **k: None)
+            raise PyRaise('AttributeError', name)
         if isinstance(o, ClassRef):
             fi = o.info.find_method(name)
             if fi is not None:
@@ -834,6 +849,10 @@ class Executor:
         root = fn_src.split('.')[0]
         if root in LOG_NAMES or fn_src == 'print':
             return None
+        if fn_src == 'super' and not n.args and self.func_stack and self.func_stack[-1].cls is not None:
+            fi = self.func_stack[-1]
+            first = fi.node.args.args[0].arg
+            return SuperProxy(env.local[first], fi.cls)
         f = self.eval(n.func, env)
         args = []
         for a in n.args:
